@@ -296,6 +296,67 @@ pub fn families(tier: Tier, variant: &str) -> Vec<Family> {
             check_all(ctx, &seeds2[si as usize][..pos as usize], &p2);
         }));
     }
+    // (b2) error messages made by visitors and by user code that themselves contain text looking like
+    // a position (" at line 7 column 9" + newline): unknown variant / field names, an inner JSON
+    // document parsed by a `deserialize_with` function whose error is forwarded with `custom`
+    {
+        fn inner_json<'de, D: serde::Deserializer<'de>>(d: D) -> Result<u8, D::Error> {
+            let s = String::deserialize(d)?;
+            sonic_rs::from_str::<u8>(&s).map_err(serde::de::Error::custom)
+        }
+        #[derive(Deserialize, Debug)]
+        #[allow(dead_code)]
+        struct Inner {
+            #[serde(deserialize_with = "inner_json")]
+            s: u8,
+        }
+        let texts: Vec<String> = [
+            "\"x at line 7 column 9\\n\"",
+            "\"x at line 7 column 9\"",
+            " \n\"B at line 1 column 1\\n\\n\\tB\"",
+            "{\"x at line 7 column 9\\n\":1}",
+            "\n\n {\"a\":1,\"b-b\":\"x\",\"y at line 3 column 1\\n\":0}",
+            "{\"a\":[1],\"b\":null,\"zz at line 9 column 9\\n\":true}",
+            "{\"s\":\"[1,\\n 2 x\"}",
+            "\n{\"s\":\"{\\\"k\\\": tru\"}",
+            "[{\"s\":\"7\"},{\"s\":\"\\n\\n  300\"}]",
+            "{\"s\":\"1 at line 5 column 5\\n\"}",
+        ]
+        .iter()
+        .map(|s| s.to_string())
+        .collect();
+        v.push(Family::of_vec("position-like-text-in-messages", texts, |s, ctx| {
+            macro_rules! t {
+                ($ty:ty, $name:expr) => {{
+                    for slice in [false, true] {
+                        let r = guard(|| if slice { sonic_rs::from_slice::<$ty>(s.as_bytes()).map(|_| ()) } else { sonic_rs::from_str::<$ty>(s).map(|_| ()) });
+                        ctx.state();
+                        ctx.call();
+                        match r {
+                            Err(p) => ctx.violation(concat!("panic/", $name), json!({"entry": $name, "text": s, "panic": p})),
+                            Ok(Ok(())) => ctx.outcome("ok"),
+                            Ok(Err(e)) => check_err(ctx, $name, s.as_bytes(), &e, false),
+                        }
+                    }
+                }};
+            }
+            t!(crate::types::UnitEnum, "from_str<UnitEnum>");
+            t!(E, "from_str<enum>");
+            t!(crate::types::Strict, "from_str<Strict>");
+            t!(S, "from_str<struct>");
+            t!(Inner, "from_str<struct{deserialize_with}>");
+            t!(Vec<Inner>, "from_str<Vec<struct{deserialize_with}>>");
+            t!(crate::types::Internal, "from_str<Internal>");
+            t!(crate::types::Untagged, "from_str<Untagged>");
+            // the stream deserializer reports the same
+            let r = guard(|| sonic_rs::Deserializer::from_str(s).into_stream::<Inner>().next());
+            ctx.state();
+            ctx.call();
+            if let Ok(Some(Err(e))) = r {
+                check_err(ctx, "stream<struct{deserialize_with}>", s.as_bytes(), &e, false);
+            }
+        }));
+    }
     // (c) token sequences through the typed / lookup / stream entry points
     {
         let k = gen::T16.len() as u64;
